@@ -178,6 +178,12 @@ def case_mibdump(idx, rng, tier, res):
                     t = time.time() + age
                     os.utime(p, (t, t))
                     pre[m] = 'fresh' if age > 0 else 'stale'
+        # byte-compilation that cannot succeed: __pycache__ is a regular file
+        pyc_block = fmt == 'pysnmp' and '--no-python-compile' not in opts and rng.random() < 0.45
+        if pyc_block:
+            with open(os.path.join(dst, '__pycache__'), 'w') as f:
+                f.write('not a directory\n')
+            res.count('pycache_blocked_runs')
         args = ['--mib-source=' + src, '--destination-directory=' + dst, '--destination-format=' + fmt,
                 '--mib-borrower=' + bor, '--mib-searcher=' + dst] + opts
         names = [alias[1] if alias and alias[0] == r else r for r in requested]
@@ -194,6 +200,7 @@ def case_mibdump(idx, rng, tier, res):
         after = faults.snapshot(dst)
         res.count('mibdump_runs')
         cell = {'graph': gname, 'format': fmt, 'health': health, 'options': opts, 'requested': names,
+                'pycache_is_a_file': pyc_block,
                 'borrowable': borrowable, 'preexisting': pre, 'alias': alias}
 
         def V(monitor, detail, **features):
@@ -214,7 +221,7 @@ def case_mibdump(idx, rng, tier, res):
         reach = orch_closure(mods, g, requested, health)
         ign = '--ignore-errors' in opts
         where = dict((n, c) for c, ns in rep.items() for n in ns)
-        for m in reach:
+        for m in ([] if pyc_block else reach):
             got = where.get(m)
             any_bad_ = any(c in ('missing', 'failed') for c in where.values())
             blocked = ('ignored',) if (any_bad_ and not ign) else ()
@@ -239,8 +246,12 @@ def case_mibdump(idx, rng, tier, res):
             V('reported_twice', 'modules listed under two categories: %s' % dup)
         # files in the destination
         changed = set(k for k in (after or {}) if (before or {}).get(k) != after[k])
-        changed |= set(k for k in (before or {}) if k not in (after or {}))
+        removed = set(k for k in (before or {}) if k not in (after or {}))
         changed = set(c for c in changed if not c.startswith('__pycache__'))
+        # a module whose byte-compilation failed may be removed - only if it is reported failed
+        bad_removed = [k for k in removed if ext and k.endswith(ext) and k[:-len(ext)] not in (rep['failed'] or [])]
+        if bad_removed:
+            V('file_removed', 'destination files disappeared: %s (failed=%s)' % (bad_removed, rep['failed']))
         if '--build-index' in opts and '--dry-run' not in opts:
             changed.discard('index.json')
         expect = set()
